@@ -30,7 +30,8 @@ func init() {
 	evidenceInfo["C01"] = evInfo{
 		rule: "one evaluation = one project built once through kit.NewJapi (root from disk) or kit.NewJApiFromFile (root in memory, INCLUDEs from disk) on the sim-disk under a seeded fault plan. " + faults +
 			"Projects: generator (valid), light include graphs (ordinary, hostile parameters, static cycles), 29 special configurations (missing/empty/directory root, macro cycles, malformed INCLUDEs, NUL/invalid UTF-8, truncated directives, ...), corpus. " +
-			"Oracle: outcome is a catalog or a structured error value; no panic; the worker process survives; <= 5000 file accesses; no hang. " +
+			"Phase 'scaling' first builds 18 project shapes (tags, methods, bodies, type chains and stars, allOf chains, includes, pastes, macro chains, responses, JSON-RPC ...) at size n and 4n and requires <= 8x the seam operations (deterministic work measure; linear = 4x). " +
+			"Oracle: outcome is a catalog or a structured error value; no panic; the worker process survives; <= 5000 file accesses; no hang; no deadlock among goroutines the build starts itself; work (seam operations executed) <= 150 per byte served once above 400 000. " +
 			"non-trivial = at least one fault fired or the project is a hostile/special configuration; distinct = distinct (configuration kind, fired-fault multiset, access-log shape, outcome class) tuples",
 		components: stdComponents,
 		assumptions: []string{
@@ -75,10 +76,12 @@ func (e diskEngine) Plan(tier string) []Phase {
 		}
 		return []Phase{{Mode: "alphabet", Count: alphabetCount(3)}, {Mode: "random", Share: 1}}
 	case "C01":
+		// "scaling": one job per shape; the same project at size n and 4n must not need more than 8x
+		// the work (seam operations, counted deterministically; linear = 4x, quadratic = 16x)
 		if tier == "thorough" {
-			return []Phase{{Mode: "random", Share: 0.7}, {Mode: "sweep", Share: 0.3}}
+			return []Phase{{Mode: "scaling", Count: len(scaleShapes)}, {Mode: "random", Share: 0.7}, {Mode: "sweep", Share: 0.3}}
 		}
-		return []Phase{{Mode: "random", Share: 0.85}, {Mode: "sweep", Share: 0.15}}
+		return []Phase{{Mode: "scaling", Count: len(scaleShapes)}, {Mode: "random", Share: 0.85}, {Mode: "sweep", Share: 0.15}}
 	}
 	return []Phase{{Mode: "random", Share: 1}}
 }
@@ -272,6 +275,12 @@ func (e diskEngine) Gen(job *Job) *Case {
 	if job.Mode == "alphabet" {
 		return e.genAlphabet(job, c)
 	}
+	if job.Mode == "scaling" {
+		sh := scaleShapes[job.Index%len(scaleShapes)]
+		c.Project = scaleProject(sh, 50)
+		c.Note = "scaling:" + sh
+		return c
+	}
 	// flavour weights per property: valid+faults, light, special, corpus
 	w := map[string][4]int{"C01": {40, 20, 20, 20}, "C07": {40, 30, 5, 25}, "C14": {10, 80, 5, 5}}[e.prop]
 	k := r.Intn(100)
@@ -441,7 +450,51 @@ func damagedVersion(p *Project, r *Rand) *Project {
 	return q
 }
 
+// execScaling: the project of the case is a scaleProject at n = 50; it is built at n and at
+// 4n and the work of the two builds is compared.
+func (e diskEngine) execScaling(c *Case, job *Job) *Result {
+	res := &Result{}
+	shape := strings.TrimPrefix(c.Note, "scaling:")
+	canonicalEnv()
+	simrt.SetOSHook(nil)
+	var ops [2]uint64
+	var class [2]string
+	for i, n := range []int{50, 200} {
+		p := scaleProject(shape, n)
+		must(Materialise(p.Files))
+		simrt.ResetOps()
+		o := BuildPath(filepath.Join(projDir, p.Root))
+		ops[i] = simrt.Ops()
+		class[i] = o.Class()
+	}
+	res.count("scaling-shapes", 1)
+	res.count("max:scaling-ratio-x10", int(ops[1]*10/(ops[0]+1)))
+	res.NonTrivial = true
+	res.Key = "scaling|" + shape
+	res.Steps = int(ops[0] + ops[1])
+	if class[0] != "catalog" || class[1] != "catalog" {
+		res.Verdict = "skip"
+		res.count("skipped:scaling-project-rejected", 1)
+		return res
+	}
+	if ops[0] > 100 && ops[1] > 8*ops[0] {
+		group := shape
+		if shape == "types-chain" || shape == "allof-chain" {
+			group = shape + " (user-type-chain)"
+		}
+		if e.prop == "C01" {
+			res.violate("work-not-proportional", "work-not-proportional: "+group,
+				fmt.Sprintf("shape %q: %d seam operations at n=50, %d at n=200: 4x the input needs %.1fx the work (linear = 4x, quadratic = 16x); the build does not run in time proportional to the input", shape, ops[0], ops[1], float64(ops[1])/float64(ops[0])))
+		}
+	}
+	res.Detail, _ = json.Marshal(map[string]any{"shape": shape, "ops_n50": ops[0], "ops_n200": ops[1]})
+	return res
+}
+
 func (e diskEngine) Exec(c *Case, job *Job) *Result {
+	if strings.HasPrefix(c.Note, "scaling:") {
+		return e.execScaling(c, job)
+	}
 	res := &Result{}
 	canonicalEnv()
 	if c.Prior > 0 {
@@ -533,6 +586,13 @@ func (e diskEngine) Exec(c *Case, job *Job) *Result {
 	mr := runIncludeModel(log, c.Entry, rootPath, rootData)
 
 	v01c, v01s, v01m := oracleC01(o, disk)
+	if v01c == "" && ops > 400000 && ops > uint64(150*(served+200)) {
+		// "within time proportional to the input", measured without a clock: the number of seam
+		// operations (lock, once, map range, file access) the build executed, per byte served. Over
+		// > 10^6 runs on the unchanged tree the maximum is ~10 per byte and < 60 000 in total.
+		v01c, v01s = "work-not-proportional", "work-not-proportional"
+		v01m = fmt.Sprintf("the build executed %d seam operations for %d bytes of input (%d per byte; the unchanged tree stays below 10 per byte): work is not proportional to the input", ops, served, ops/uint64(served+1))
+	}
 	v14c, v14s, v14m := oracleC14(c, o, log, mr, modelAsserted, res)
 	v07c, v07s, v07m := oracleC07(c, o, log, mr, modelAsserted && !mr.abstained, rootPath, rootData, res)
 
